@@ -1,0 +1,11 @@
+//go:build verif
+
+// Machine-checked contracts for package blobclient (comment-only; read by /verif/govc).
+// Property C25: Locations asks at most three distinct hosts of the current cluster list.
+
+package blobclient
+
+//@ func Locations
+//@   requires p != nil && cluster != nil
+//@   modifies *
+//@   assert sampled_host: at Provider.Provide#0 :: (addr in addrs) && len(addrs) <= 3 && (forall a string :: (a in addrs) ==> (a in cluster.resolved))
